@@ -46,6 +46,7 @@ from ..impl import mx, close_all, quiet, err_kind
 KEY_TWO_FAILED = "C14-failed-dir-save-then-save"
 KEY_LOAD_RENAME = "C14-failed-load-renames-existing"
 KEY_ZIP_TRUNC = "C14-zip-reopen-error-truncates-archive"
+KEY_LOAD_LEAK = "C14-failed-load-leaks-io"
 NSLOTS = 5          # path, _BAK1 .. _BAK4 (the last one must never exist)
 
 _sys = mx.core.mxsys
@@ -1065,6 +1066,7 @@ def run_load_case(lw, spec, out, stats, lines):
     before = [(k, id(v)) for k, v in _sys.models.items()]
     desc_before = [describe(m) for m in created]
     io_before = [describe_io(m) for m in created]
+    ios_before = {id(io_) for io_ in _sys.iomanager.ios.values()}
     loaded = None
     err = None
     inj = Injector([lw.tmp], fault_at=spec.get("at"), mode="load", label=lw.label,
@@ -1123,6 +1125,18 @@ def run_load_case(lw, spec, out, stats, lines):
         for m, d in zip(created, desc_before):
             if describe(m) != d:
                 out.fail("a failed load changed an existing model", hist)
+        # no residue in the session's registry of file objects: what the load registered is gone again
+        stray = [(g, p) for (g, p), io_ in _sys.iomanager.ios.items() if id(io_) not in ios_before]
+        if stray:
+            # the recorded class: file objects filed under the half-read model, which was closed (relative paths)
+            halfread = all(g is not None and g._impl not in _sys.models.values()
+                           and all(g is not m for m in created) and not p.is_absolute() for g, p in stray)
+            out.fail("a failed load left file objects in the IOManager: %s" % sorted(
+                ("-" if g is None else "half-read model", p.as_posix() if not p.is_absolute() else "<abs>/" + p.name)
+                for g, p in stray), hist, detail={"phase": phase, "error": err},
+                key=KEY_LOAD_LEAK if halfread else None)
+            for key in stray:
+                del _sys.iomanager.ios[key]
     else:
         if describe(loaded) != lw.expected and how == "none":
             out.fail("a load reported success but the model differs from what was saved", hist)
